@@ -121,6 +121,56 @@ func c14Pair(c *engine.Case, name band.Name, b band.Band, s band.VerifBandSnapsh
 	}
 }
 
+// c14PairOwnApply: plans of more than 96 channels. No revision of the Regional Parameters says what
+// ChMaskCntl 6 and 7 mean as *block numbers* of a dynamic plan (the device model of mc/spec ends at 96
+// channels), so the one device the statement can be read against there is the library's own apply
+// function: the generated payloads, applied by it, give the network's enabled channels the device can
+// know; they are encodable and at most one per block plus one.
+func c14PairOwnApply(c *engine.Case, name band.Name, b band.Band, s band.VerifBandSnapshot, history string, device []int) {
+	c.Eval()
+	n := len(s.UplinkChannels)
+	inDevice := map[int]bool{}
+	for _, d := range device {
+		inDevice[d] = true
+	}
+	var target []int
+	for i, ch := range s.UplinkChannels {
+		if ch.Enabled && (inDevice[i] || !ch.Custom) {
+			target = append(target, i)
+		}
+	}
+	desc := fmt.Sprintf("%s %s, device of %d channels", name, history, len(device))
+	var pls []lorawan.LinkADRReqPayload
+	if pn, site, v := engine.Try(func() { pls = b.GetLinkADRReqPayloadsForEnabledUplinkChannelIndices(device) }); pn {
+		c.Fail("planner-panics/beyond-96/"+site, fmt.Sprintf("%s: planner panics: %v", desc, v), nil)
+		return
+	}
+	c.NonTrivial()
+	for _, pl := range pls {
+		if _, err := pl.MarshalBinary(); err != nil {
+			c.Fail("payload-not-encodable/beyond-96", fmt.Sprintf("%s: payload %+v: %v", desc, pl, err), nil)
+		}
+	}
+	if len(pls) > (n+15)/16+1 {
+		c.Fail("too-many-payloads/beyond-96", fmt.Sprintf("%s: %d payloads for %d channels", desc, len(pls), n), nil)
+	}
+	sorted := append([]int(nil), device...)
+	sort.Ints(sorted)
+	if intsEq(sorted, target) && len(pls) != 0 {
+		c.Fail("payloads-although-device-matches/beyond-96", fmt.Sprintf("%s: %d payloads although the device already matches", desc, len(pls)), nil)
+	}
+	var lib []int
+	var err error
+	if pn, site, v := engine.Try(func() { lib, err = b.GetEnabledUplinkChannelIndicesForLinkADRReqPayloads(device, pls) }); pn {
+		c.Fail("apply-panics/beyond-96/"+site, fmt.Sprintf("%s: apply panics: %v", desc, v), nil)
+		return
+	}
+	if err != nil || !intsEq(lib, target) {
+		c.Fail("plan-does-not-converge/beyond-96(library apply)", fmt.Sprintf("%s: the library's apply function turns the generated payloads %+v into %v (err %v), expected %v", desc, pls, lib, err, target), nil)
+	}
+	c.Outcome(fmt.Sprintf("plan/beyond-96/payloads=%d", len(pls)))
+}
+
 var c14Block16 = []uint16{0xFFFF, 0x0000, 0x00FF, 0xFF00, 0x0001, 0xFFFE, 0x5555}
 var c14Block8 = []uint16{0xFF, 0x00, 0x01, 0xFE}
 
@@ -294,6 +344,70 @@ func runC14(r *engine.Run) {
 					c14Pair(c, name, b, s, fmt.Sprintf("20-channel plan, network mask %05x", netMask), dev)
 				}
 			}
+		})
+	}
+
+	// ---- dynamic plans grown far past 16 channels (up to the 8 blocks a ChMaskCntl of 0..7 can address):
+	// histories of up to 125 AddChannel calls; the generic block rule must hold in every block
+	sizes := []int{17, 32, 33, 49, 64, 65, 81, 96, 97, 112, 113, 128}
+	for _, name := range bandNames {
+		cfg := bandCfg{name, false, lorawan.DwellTimeNoLimit}
+		init := snapOf(newBand(cfg))
+		if !init.SupportsExtraChannels {
+			continue
+		}
+		name := name
+		r.PartDims("many-blocks/"+string(name), []string{fmt.Sprintf("plan size:%d (17..128 channels)", len(sizes)), "network: 6 patterns of disabled channels", "device: 6 patterns (inner)"}, uint64(len(sizes))*6, func(c *engine.Case) {
+			n := sizes[c.Index/6]
+			b := newBand(cfg)
+			base := init.UplinkChannels[0].Frequency
+			for k := len(init.UplinkChannels); k < n; k++ {
+				b.AddChannel(base+10000000+uint32(k)*200000, init.CFListMinDR, init.CFListMaxDR)
+			}
+			pattern := func(which int) []bool {
+				on := make([]bool, n)
+				for i := range on {
+					switch which {
+					case 0:
+						on[i] = true
+					case 1:
+						on[i] = i != n-1
+					case 2:
+						on[i] = i%16 != 0
+					case 3:
+						on[i] = i/16 != (n-1)/16
+					case 4:
+						on[i] = i < 16
+					case 5:
+						on[i] = i%2 == 0
+					}
+				}
+				return on
+			}
+			for i, on := range pattern(int(c.Index % 6)) {
+				if !on {
+					b.DisableUplinkChannelIndex(i)
+				}
+			}
+			s := snapOf(b)
+			if len(s.UplinkChannels) != n {
+				c.Fail("many-blocks/plan-size", fmt.Sprintf("%s: %d channels after growing the plan to %d", name, len(s.UplinkChannels), n), nil)
+				return
+			}
+			for d := 0; d < 6; d++ {
+				var dev []int
+				for i, on := range pattern(d) {
+					if on {
+						dev = append(dev, i)
+					}
+				}
+				if n <= 96 {
+					c14Pair(c, name, b, s, fmt.Sprintf("%d-channel plan, network pattern %d", n, c.Index%6), dev)
+				} else {
+					c14PairOwnApply(c, name, b, s, fmt.Sprintf("%d-channel plan, network pattern %d", n, c.Index%6), dev)
+				}
+			}
+			c.Outcome(fmt.Sprintf("many-blocks/blocks=%d", (n+15)/16))
 		})
 	}
 
